@@ -120,7 +120,7 @@ class FreeValuation:
 
     def __init__(self, vars_: Vars, model, spec, explicit_D=None,
                  orb_energy="e", diag_fock=None, zero_blocks=None, alias=None,
-                 overrides=None):
+                 overrides=None, symbol_overrides=None):
         self.vars, self.model, self.spec = vars_, model, spec
         self.explicit_D, self.orb_energy = explicit_D, orb_energy
         self.diag_fock = diag_fock
@@ -128,6 +128,8 @@ class FreeValuation:
         self.alias = alias or {}
         # overrides: {name: fn(valuation, name, cls, U, L, bks) -> monomial list or None}
         self.overrides = overrides or {}
+        # symbol_overrides: {symbol name: fn(valuation) -> monomial list}
+        self.symbol_overrides = symbol_overrides or {}
         self._cache = {}
 
     # -- linear forms / inverses ------------------------------------------------
@@ -206,6 +208,9 @@ class FreeValuation:
         return [(Fraction(1), (self.vars.get(("N", name, tuple(orbs))),))]
 
     def symbol(self, name):
+        ov = self.symbol_overrides.get(name)
+        if ov is not None:
+            return ov(self)
         return [(Fraction(1), (self.vars.get(("Y", name)),))]
 
     def root(self, prime):
